@@ -46,12 +46,16 @@ harness!(c06_withtop_none, 4, { c06_on::<WithTop<S4>>(WithTop::new(None), true);
 harness!(c06_withtop_some_empty, 4, { c06_on::<WithTop<S4>>(WithTop::new(Some(set_of::<4>(0))), false); });
 harness!(c06_withtop_some_2, 5, { c06_on::<WithTop<S4>>(WithTop::new(Some(set_of::<4>(2))), true); });
 
-type MS = MapUnion<BTreeMap<u8, S4>>;
+// live map on the harness-side no-heap CapMap: `BTreeMap::into_iter` (used by atomize) costs CBMC > 15 min
+// even for an empty map (DESIGN §2); the `Atomize for MapUnion` body executed is the repository's.
+type MS = MapUnion<crate::cap::CapMap<u8, S4, 4>>;
 fn map_sets(ents: &[(u8, usize)]) -> MS {
-    let mut m = BTreeMap::new();
+    let mut m = crate::cap::CapMap::<u8, S4, 4>::default();
     let mut i = 0;
     while i < ents.len() {
-        m.insert(ents[i].0, set_of::<4>(ents[i].1));
+        m.keys[i] = Some(ents[i].0);
+        m.vals[i] = Some(set_of::<4>(ents[i].1));
+        m.len = i + 1;
         i += 1;
     }
     MapUnion::new(m)
@@ -65,8 +69,9 @@ harness!(c06_map_two_keys, 6, { c06_on::<MS>(map_sets(&[(0, 1), (1, 1)]), true);
 //@ heavy=1 tier=thorough
 harness!(c06_map_two_keys_one_bottom, 6, { c06_on::<MS>(map_sets(&[(0, 0), (1, 2)]), true); });
 
-// union-find reachable through the API (K symbolic unions over 4 items)
-harness!(c06_uf, 14, {
+// union-find reachable through the API (one symbolic union over 4 items)
+//@ heavy=1
+harness!(c06_uf, 7, {
     let uf = Uf::sym();
     let nb = !uf.is_bot();
     let mut reformed = Uf::default();
